@@ -19,7 +19,9 @@ ID = "C07"
 MOD = __name__
 
 RULE_TEXT = (
-    "Exhaustive part: 2 components + sub-module + bystander (quick) / 3 components + bystander (thorough) under a base "
+    "Every case additionally re-targets one DiagramRule object (other file and base first, then the real ones, a bogus base "
+    "in between) and requires the outcomes of a fresh object. Random bases include single-component packages and components "
+    "named like the base. Exhaustive part: 2 components + sub-module + bystander (quick) / 3 components + bystander (thorough) under a base "
     "package: every arrow relation x every import relation over those modules x both modes (should-only / should) x "
     "both naming options. Random part: Hypothesis, 2-6 pairwise-unrelated components, bystanders inside and outside the "
     "base package, sub-modules of components, imports biased to realise the drawn arrows. Oracle: the conformance "
@@ -36,9 +38,11 @@ ASSUMPTIONS = [
 BASE = "r.c"
 
 
-def render(components_short, arrows, fq: bool) -> str:
+def render(components_short, arrows, fq: bool, base: str = None) -> str:
+    base = base or BASE
+
     def nm(c):
-        return f"{BASE}.{c}" if fq else c
+        return f"{base}.{c}" if fq else c
     lines = [f"[{nm(c)}]" for c in components_short]
     lines += [f"[{nm(a)}] --> [{nm(b)}]" for a, b in arrows]
     return "@startuml\n" + "\n".join(lines) + "\n@enduml\n"
@@ -64,21 +68,35 @@ def expected_report(tree, imports, comps, arrows, should_only):
     return pairs, missing
 
 
-def run_diagram(path, ev, fq, should_only):
+def run_diagram(path, ev, fq, should_only, base=None):
     rule = DiagramRule(should_only_rule=should_only).from_file(Path(path))
-    rule = rule.base_module_included_in_module_names() if fq else rule.with_base_module(BASE)
+    rule = rule.base_module_included_in_module_names() if fq else rule.with_base_module(base or BASE)
     return outcome(lambda: rule.assert_applies(ev))
 
 
-def judge(tree, imports, comps_short, arrows_short, should_only, ev, paths) -> dict:
-    comps = [f"{BASE}.{c}" for c in comps_short]
-    arrows = {(f"{BASE}.{a}", f"{BASE}.{b}") for a, b in arrows_short}
+def run_reconfigured(path, ev, should_only, base, decoy_path):
+    """One DiagramRule object: first pointed at another file and base and applied, then re-targeted and applied again."""
+    rule = DiagramRule(should_only_rule=should_only).from_file(Path(decoy_path)).with_base_module(base + "_other")
+    outcome(lambda: rule.assert_applies(ev))
+    rule = rule.from_file(Path(path)).with_base_module(base)
+    first = outcome(lambda: rule.assert_applies(ev))
+    rule.with_base_module("zz_no_such_base")
+    bogus = outcome(lambda: rule.assert_applies(ev))
+    rule.with_base_module(base)
+    second = outcome(lambda: rule.assert_applies(ev))
+    return first, second, bogus
+
+
+def judge(tree, imports, comps_short, arrows_short, should_only, ev, paths, base=None) -> dict:
+    base = base or BASE
+    comps = [f"{base}.{c}" for c in comps_short]
+    arrows = {(f"{base}.{a}", f"{base}.{b}") for a, b in arrows_short}
     ok = M.diagram_conforms(tree, imports, comps, arrows, should_only)
     mode = "should_only" if should_only else "should"
     viols = []
     results = {}
     for naming, fq in (("base", False), ("fq", True)):
-        kind, msg = run_diagram(paths[fq], ev, fq, should_only)
+        kind, msg = run_diagram(paths[fq], ev, fq, should_only, base)
         results[naming] = (kind, msg)
         if kind == "error":
             viols.append({"sig": f"C07/error/{naming}", "key": {"naming": naming}, "detail": f"{msg}"})
@@ -103,6 +121,16 @@ def judge(tree, imports, comps_short, arrows_short, should_only, ev, paths) -> d
                               "detail": f"lines pairs={sorted(got_pairs)} missing={got_missing}; expected pairs={sorted(want_pairs)} missing={want_missing}; message={msg!r}"})
     if results["base"] != results["fq"] and not viols:
         viols.append({"sig": f"C07/naming-options-differ/{mode}", "key": {"mode": mode}, "detail": f"{results}"})
+    if not viols and "decoy" in paths:
+        first, second, bogus = run_reconfigured(paths[False], ev, should_only, base, paths["decoy"])
+        fresh_bogus = run_diagram(paths[False], ev, False, should_only, "zz_no_such_base")
+        if bogus[0] != fresh_bogus[0]:
+            viols.append({"sig": "C07/reconfigured-rule-object-differs/ignores-new-base", "key": {"mode": mode},
+                          "detail": f"object re-targeted to a base that does not exist gives {bogus}, a fresh one {fresh_bogus}"})
+        for name, got in (("after-retargeting", first), ("after-second-retargeting", second)):
+            if (got[0], got[1] if got[0] != "error" else None) != (results["base"][0], results["base"][1] if results["base"][0] != "error" else None):
+                viols.append({"sig": f"C07/reconfigured-rule-object-differs/{name}", "key": {"mode": mode},
+                              "detail": f"a re-targeted DiagramRule object gives {got}, a fresh one {results['base']}"})
     cset = set()
     for c in comps:
         cset |= M.desc_star(tree, c)
@@ -119,9 +147,11 @@ def check_case(spec: dict) -> dict:
     tree, imports = spec["tree"], [tuple(e) for e in spec["imports"]]
     comps, arrows = spec["components"], [tuple(a) for a in spec["arrows"]]
     ev = make_evaluable(tree, imports)
-    paths = {False: write_puml(render(comps, arrows, False)), True: write_puml(render(comps, arrows, True))}
+    base = spec.get("base", BASE)
+    paths = {False: write_puml(render(comps, arrows, False, base)), True: write_puml(render(comps, arrows, True, base)),
+             "decoy": write_puml("@startuml\n[zq1] --> [zq2]\n@enduml\n")}
     try:
-        return judge(tree, imports, comps, set(arrows), spec["should_only"], ev, paths)
+        return judge(tree, imports, comps, set(arrows), spec["should_only"], ev, paths, base)
     finally:
         for p in paths.values():
             os.unlink(p)
@@ -145,8 +175,10 @@ def exh_shard(arg, stt, deadline) -> None:
     for mask in range(2 ** len(pairs)):
         relations.append({pairs[i] for i in range(len(pairs)) if mask >> i & 1})
     files = []
+    decoy = write_puml("@startuml\n[zq1] --> [zq2]\n@enduml\n")
     for rel in relations:
-        files.append((rel, {False: write_puml(render(comps, sorted(rel), False)), True: write_puml(render(comps, sorted(rel), True))}))
+        files.append((rel, {False: write_puml(render(comps, sorted(rel), False)), True: write_puml(render(comps, sorted(rel), True)),
+                            "decoy": decoy}))
     try:
         i = 0
         for imports in RS.graphs_of(cand, shard, nshards, max_edges):
@@ -162,8 +194,10 @@ def exh_shard(arg, stt, deadline) -> None:
                     stt.record(spec, res, enumerated=True, sample=(i % 67 == 3 and len(rel) == 1 and so))
     finally:
         for _, paths in files:
-            for p in paths.values():
-                os.unlink(p)
+            for k, p in paths.items():
+                if k != "decoy":
+                    os.unlink(p)
+        os.unlink(decoy)
 
 
 # ------------------------------------------------------------------------------ random
@@ -172,28 +206,30 @@ def exh_shard(arg, stt, deadline) -> None:
 @st.composite
 def cases(draw):
     n = draw(st.integers(2, 6))
-    names = draw(st.lists(st.sampled_from(["k1", "k2", "k3", "a", "ab", "a_b", "aa", "b"]), min_size=n, max_size=n, unique=True))
-    tree = {"r", "r.c"} | {f"r.c.{c}" for c in names}
+    base = draw(st.sampled_from(["r.c", "r.c", "c", "app"]))
+    last = base.rsplit(".", 1)[-1]
+    names = draw(st.lists(st.sampled_from(["k1", "k2", "k3", "a", "ab", "a_b", "aa", "b", last, last + "x"]), min_size=n, max_size=n, unique=True))
+    tree = M.closure({base}) | {f"{base}.{c}" for c in names}
     for c in names:
-        for s in draw(st.lists(st.sampled_from(["s", "t", "a"]), max_size=2, unique=True)):
-            tree.add(f"r.c.{c}.{s}")
-    for z in draw(st.lists(st.sampled_from(["r.c.z", "r.c.zz.y", "r.o", "r.o.p", "r.ca"]), max_size=3, unique=True)):
+        for s in draw(st.lists(st.sampled_from(["s", "t", "a", last]), max_size=2, unique=True)):
+            tree.add(f"{base}.{c}.{s}")
+    for z in draw(st.lists(st.sampled_from([base + ".z", base + ".zz.y", "r.o", "r.o.p", base + "a", "other.mod"]), max_size=3, unique=True)):
         tree |= M.closure([z])
     tree = sorted(tree)
     pairs = [(a, b) for a in names for b in names if a != b]
     arrows = draw(st.lists(st.sampled_from(pairs), max_size=min(len(pairs), 8), unique=True))
-    comp_mods = {f"r.c.{c}": sorted(M.desc_star(tree, f"r.c.{c}")) for c in names}
+    comp_mods = {f"{base}.{c}": sorted(M.desc_star(tree, f"{base}.{c}")) for c in names}
     imports = set()
     for a, b in arrows:
         r = draw(st.integers(0, 9))
         if r < 8:  # realise most arrows
-            imports.add((draw(st.sampled_from(comp_mods[f"r.c.{a}"])), draw(st.sampled_from(comp_mods[f"r.c.{b}"]))))
+            imports.add((draw(st.sampled_from(comp_mods[f"{base}.{a}"])), draw(st.sampled_from(comp_mods[f"{base}.{b}"]))))
     cand = M.candidate_edges(tree)
     for e in draw(st.lists(st.sampled_from(cand), max_size=4)):
         imports.add(e)
     imports = {e for e in imports if not M.is_strict_desc(e[1], e[0])}
     return {"tree": tree, "imports": sorted(list(e) for e in imports), "components": names, "arrows": [list(a) for a in arrows],
-            "should_only": draw(st.booleans())}
+            "should_only": draw(st.booleans()), "base": base}
 
 
 def strategy(tier):
